@@ -24,7 +24,20 @@ def gen_world(rng, i, tier):
         read["ep"] = "readDirsHistory"
     w["init"] = rng.pick(["null", "sentinel"])
     w["subset_seed"] = rng.getrandbits(32)
+    # the callback may itself read configuration through the library (a policy file) before it answers
+    w["nested"] = rng.chance(0.15)
     return w
+
+
+POLICY = {"usr": "$ROOT/policy/usr", "etc": "$ROOT/policy/etc", "name": "policy", "suffix": "conf"}
+POLICY_NODES = [{"t": "f", "p": "$ROOT/policy/usr/policy.conf", "c": "policy=vendor\nallow=yes\n"},
+                {"t": "f", "p": "$ROOT/policy/etc/policy.conf.d/10-site.conf", "c": "policy=site\n[rules]\nx=1\n"}]
+
+
+def with_nested(world, cb):
+    if cb is not None and world.get("nested"):
+        cb = dict(cb, nested=POLICY)
+    return cb
 
 
 def consulted_of(world):
@@ -54,15 +67,15 @@ def veto_sets(world, model):
 def one_plan(world, cb, init):
     read = world["read"]
     ops = gen.prologue_ops(read) if read["ep"] != "readFile" else []
-    ops += gen.layered_read_ops(read, cb=cb, init=init)
+    ops += gen.layered_read_ops(read, cb=with_nested(world, cb), init=init)
     if cb:
         # nothing of the refused call may survive into the next one: the same read again, everything accepted
-        again = gen.layered_read_ops(read, cb={}, init=init)
+        again = gen.layered_read_ops(read, cb=with_nested(world, {}), init=init)
         for o in again:
             if "tag" in o:
                 o["tag"] += "_again"
         ops += again
-    return {"cfg": world["cfg"], "tree": gen.tree_plan(world["nodes"]), "ops": ops}
+    return {"cfg": world["cfg"], "tree": gen.tree_plan(world["nodes"]) + (POLICY_NODES if world.get("nested") else []), "ops": ops}
 
 
 def build_plans(world):
@@ -170,6 +183,8 @@ def check(world, plans, results):
     tsig = _c01.layered_signature(world, model) if read["ep"] != "readFile" and model else "single"
     v.sig = sig_of(read["ep"], len(cons), sorted(set(sigs)), tsig)
     v.probe("executions", len(results))
+    if world.get("nested"):
+        v.probe("callback_uses_the_library_itself")
     return v
 
 
